@@ -206,6 +206,8 @@ func checkC12(p *Prog, r *Report) {
 	// D5
 	pnftViewsAgree(p, r, kp)
 	checkInitGenesisCallers(p, r, "C12", "x/pnft")
+	checkPnftViewsDoNotRewriteEntities(p, r, kp)
+	checkNoUnseparatedCompositeMapKeys(p, r, func(rule, rest string) string { return rule + ":C12:" + rest }, "x/pnft")
 	wireKeyOwnership(p, r, BuildWire(p), "C12", "pnft", []string{"x/pnft/keeper.NewKeeper"}, "denoms and tokens")
 }
 
